@@ -801,3 +801,91 @@ def m5(facts, tier):
                          "carry over and arguments with different layouts are passed by pointer")
     if not found:
         yield ob(["C11", "C09"], "M5", "mask-per-method", "violation", "", "no method record with a mask variable found (anchor lost)")
+
+
+@rule("M6", ["C09", "C11"], floor=1, doc="the argument-count limit of a method equals the bit width of its by-reference mask: a method is rejected "
+      "exactly when it has more arguments than the mask type has bits (fewer: a supported method becomes uncallable; more: the shift "
+      "`1 << index` overflows)")
+def m6(facts, tier):
+    for fid, f in facts.fns.items():
+        if f["crate"] != "savefile_abi" or not fid.endswith("::analyze_and_create"):
+            continue
+        # width of the mask: the integer type of AbiConnectionMethod.compatibility_mask
+        bits = None
+        adt = facts.adts.get("savefile_abi::AbiConnectionMethod")
+        if adt:
+            for v in adt.get("variants", []):
+                for fl in v.get("fields", []):
+                    if fl.get("name") == "compatibility_mask":
+                        m = re.match(r"u(\d+)$", fl.get("ty", ""))
+                        bits = int(m.group(1)) if m else None
+        n = 0
+        for x in walk(f["body"]):
+            if x.get("k") != "If":
+                continue
+            c = peel_block(peel(x["c"]))
+            if c.get("k") != "Bin" or c["op"] not in ("Gt", "Ge", "Lt", "Le"):
+                continue
+            l, r = peel_block(peel(c["l"])), peel_block(peel(c["r"]))
+            if r.get("k") == "Call" and l.get("k") == "Lit":
+                l, r = r, l
+                op = {"Gt": "Lt", "Ge": "Le", "Lt": "Gt", "Le": "Ge"}[c["op"]]
+            else:
+                op = c["op"]
+            if not (l.get("k") == "Call" and (callee(l) or "").endswith("::len") and r.get("k") == "Lit" and "int" in r):
+                continue
+            what = ".".join(str(p).split("#")[0] for p in (path_of_args(l) or ()))
+            if "arguments" not in what:
+                continue
+            rejects = any(y.get("k") == "Return" or (y.get("k") == "Call" and "panic" in (callee(y) or "")) for y in walk(x["t"]))
+            if not rejects:
+                continue
+            n += 1
+            # the largest accepted count
+            maxok = r["int"] if op == "Gt" else (r["int"] - 1 if op == "Ge" else None)
+            ok = bits is not None and maxok == bits
+            yield ob(["C09", "C11"], "M6", "argument-limit-equals-mask-width", "pass" if ok else ("undecided" if bits is None or maxok is None else "violation"),
+                     where(f, x),
+                     f"a method is rejected when it has more than {maxok} arguments; the mask has {bits} bits" if ok else
+                     f"a method is rejected when it has more than {maxok} arguments although its by-reference mask has {bits} bits: "
+                     + ("methods with up to the full width are supported by the protocol and become uncallable" if maxok is not None and bits is not None and maxok < bits
+                        else "the shift that sets a mask bit overflows for the last arguments"))
+        if n == 0:
+            yield ob(["C09", "C11"], "M6", "argument-limit-equals-mask-width", "violation", where(f),
+                     "no reject-guard on the number of arguments of a method: `1 << index` overflows for methods wider than the mask")
+
+
+def path_of_args(call):
+    from ..ir import path_of
+    return path_of(call["args"][0]) if call.get("args") else None
+
+
+@rule("N6", ["C10", "C09"], floor=3, doc="the hidden helper interfaces the macro generates for closure arguments and boxed futures inside an exported trait "
+      "carry the enclosing trait's version (each is a nested connection of its own: a lower version would transmit closure arguments, "
+      "closure results and future outputs in an older format than the one negotiated)")
+def n6(facts, tier):
+    groups = {}
+    for fid, f in facts.fns.items():
+        if f["crate"] != "sfcorpus" or not fid.endswith("::get_latest_version") or "AbiExportable" not in fid:
+            continue
+        b = peel_block(f["body"])
+        v = b.get("int") if b.get("k") == "Lit" else None
+        m = re.match(r"<\(dyn ([^ ]+)", fid)
+        name = m.group(1) if m else fid
+        groups.setdefault((f.get("file"), f.get("line")), []).append((name, v, f))
+    for (file, line), ents in sorted(groups.items(), key=lambda kv: str(kv[0])):
+        named = [e for e in ents if "::_::" not in e[0]]
+        helpers = [e for e in ents if "::_::" in e[0]]
+        if len(named) != 1 or not helpers:
+            continue
+        tname, tv, tf = named[0]
+        for hname, hv, hf in sorted(helpers):
+            kind = "future" if "future" in hname else "closure"
+            ordinal = sorted(h[0] for h in helpers if ("future" in h[0]) == (kind == "future")).index(hname) + 1
+            key = f"{tname}:{kind}-helper#{ordinal}"
+            ok = hv is not None and hv == tv
+            yield ob(["C10", "C09"], "N6", key, "pass" if ok else "violation", where(hf),
+                     f"{kind} helper interface generated inside {tname} (version {tv}) declares version {hv}" if ok else
+                     f"the {kind} helper interface generated inside {tname} declares version {hv} although the enclosing interface is at "
+                     f"version {tv}: values crossing through it (closure arguments/results, future outputs) are transmitted in the version "
+                     f"{hv} format even when both sides negotiated {tv} - fields added later arrive as their defaults")
